@@ -5,6 +5,7 @@ import (
 	"fmt"
 	"math"
 	"os"
+	"path/filepath"
 	"sort"
 	"strconv"
 	"strings"
@@ -35,6 +36,7 @@ type c10Spec struct {
 	Zero   bool      `json:"zero,omitempty"`   // global fertilisation factor 0 % (unfertilised scenario)
 	Start  string    `json:"start,omitempty"`  // first simulated day ("" = 10 April 2001)
 	Ext    int       `json:"ext,omitempty"`    // the annual output date lies Ext days after the end date: the run (the simulated period) is extended up to it
+	NoTill bool      `json:"no_till,omitempty"` // the project has no tillage file (the file is optional)
 	After  bool      `json:"after,omitempty"`  // a crop is sown on day +1 and harvested on day +5 and is the LAST entry of the rotation file: the events lie behind the last harvest
 	Spell  int       `json:"spell,omitempty"`  // how the schedule files are written: 0 plain; 1 records indented by two blanks; 2 by a tab; 3 fields separated by tabs; 4 CRLF line ends
 }
@@ -182,6 +184,29 @@ func c10Specs(tier string, seed int) []c10Spec {
 			}
 			out = append(out, sp)
 		}
+	}
+	// projects without a tillage file (it is optional): fertilisation and irrigation lists on the days +1 .. +6
+	for _, what := range []string{"fert", "irr"} {
+		per := 2
+		if what == "irr" {
+			per = 1
+		}
+		ms := c10Multisets([]int{1, 2, 3, 4, 5, 6}, 2, per)
+		sp := c10Spec{What: what, Window: "start", Fmt: "DateDElong", Factor: 100, NoTill: true}
+		for j0, m := range ms {
+			var evs []c10Ev
+			for j, off := range m {
+				e := c10Ev{Off: off}
+				if what == "fert" {
+					e.Kind, e.Amt = c10Ferts[(j0+j)%len(c10Ferts)], float64(20+10*((j0+j)%5))
+				} else {
+					e.Amt, e.Kind = float64(5+5*((j0+j)%4)), fmt.Sprint(10*((j0+j)%3))
+				}
+				evs = append(evs, e)
+			}
+			sp.Scheds = append(sp.Scheds, evs)
+		}
+		out = append(out, sp)
 	}
 	// long schedules: hundreds of events of one kind (the event tables are filled far beyond their first few slots),
 	// with and without events before the start
@@ -473,6 +498,9 @@ func c10RunSchedule(c *mc.Ctx, sp c10Spec, what string, fert, till, irr []c10Ev,
 	os.RemoveAll(root + "/out")
 	p.Files = files
 	p.Write(root)
+	if sp.NoTill {
+		os.Remove(filepath.Join(root, "project", p.ID, "til_"+p.ID+".txt"))
+	}
 
 	obs := map[int]*dayObs{}
 	var d0 dayObs
